@@ -176,11 +176,11 @@ func Harness_C13_producers() {
 // members, one entry per member, in order.
 func Harness_C13_parse() {
 	names := []string{"ok", "nosuch"}
+	// thorough: the full member generator, as a single request and as a
+	// one-member batch (two-member batches square the generator and did not
+	// finish in 40 minutes: outside the claim, see C02_batch for pairs)
 	n := 1
-	if thorough() {
-		n = 1 + nondetChoice("n", 2)
-	}
-	batch := n > 1 || (thorough() && nondetBool("batch"))
+	batch := thorough() && nondetBool("batch")
 	var ms []*verifMember
 	var raws []json.RawMessage
 	for i := 0; i < n; i++ {
@@ -228,4 +228,29 @@ func Harness_C13_parse() {
 	_, err = ParseRequests(bad)
 	vassert(err != nil, "text that is not valid JSON is a top-level error")
 	reach("invalid-json")
+}
+
+// Harness_C13_padded: insignificant white space around a record changes
+// neither how many entries ParseRequests reports nor what they are.
+func Harness_C13_padded() {
+	verifMapOrders(false)
+	n := 1 + nondetChoice("n", 2)
+	batch := n > 1 || nondetBool("batch")
+	var raws []json.RawMessage
+	for i := 0; i < n; i++ {
+		raws = append(raws, verifReq(verifItoa(i+1), "m"+verifItoa(i)))
+	}
+	record := raws[0]
+	if batch {
+		record = tokArray(raws)
+	}
+	out, err := ParseRequests(verifPad("pad", record))
+	vassert(err == nil, "padded valid JSON is never a top-level error")
+	vassert(len(out) == n, "one entry per member, padded or not")
+	for i, p := range out {
+		vassert(p.Error == nil, "a valid member of a padded record is not flagged")
+		vassert(p.Method == "m"+verifItoa(i), "method of a member of a padded record")
+		vassert(p.ID == verifItoa(i+1), "id of a member of a padded record")
+	}
+	reach("padded")
 }
